@@ -150,6 +150,7 @@ class FieldSystem(oqupy.TimeDependentSystemWithField):
         self.m = (A1, B1, C1, A2, B2, C2)
         self.prop_calls = []
         self.gp_calls = []
+        self.gp_full = []
 
     def props(self, step, field, deriv):
         A1, B1, C1, A2, B2, C2 = self.m
@@ -157,6 +158,7 @@ class FieldSystem(oqupy.TimeDependentSystemWithField):
 
     def get_propagators(self, dt, start_time, subdiv_limit, epsrel):
         self.gp_calls.append((dt, start_time))
+        self.gp_full.append((dt, start_time, subdiv_limit, epsrel))
 
         def propagators(step, field, field_derivative):
             self.prop_calls.append((step, field, field_derivative))
@@ -407,7 +409,7 @@ class Cdwf(Case):
 # --------------------------------------------------------------------------
 # H1 / MeanFieldTempo
 # --------------------------------------------------------------------------
-def make_mean_field_tempo(mfs, systems, rho0s, a0, start, dt, K, influences, epsrel):
+def make_mean_field_tempo(mfs, systems, rho0s, a0, start, dt, K, influences, epsrel, parameters=None):
     """real MeanFieldTempo object without the numeric bath / TempoParameters front end:
     `__init__` only parses and stores; everything it stores is set here, then the real
     `_prepare_backend` runs"""
@@ -416,7 +418,9 @@ def make_mean_field_tempo(mfs, systems, rho0s, a0, start, dt, K, influences, eps
     mt._mean_field_system = mfs
     mt._dynamics = None
     mt._backend_config = tempo_mod.TEMPO_BACKEND_CONFIG
-    mt._parameters = types.SimpleNamespace(dt=dt, dkmax=K, epsrel=epsrel, subdiv_limit=None, liouvillian_epsrel=1e-6)
+    # `parameters`: a real TempoParameters object (concrete dt); otherwise a stand-in carrying a symbolic dt
+    mt._parameters = parameters if parameters is not None else types.SimpleNamespace(
+        dt=dt, dkmax=K, epsrel=epsrel, subdiv_limit=None, liouvillian_epsrel=1e-6)
     mt._unique = False
     baths = [types.SimpleNamespace(unitary_transform=np.identity(s.dimension), index=i) for i, s in enumerate(systems)]
     mt._parsed_parameters_dict = {"system": list(systems), "initial_state": list(rho0s), "bath": baths,
@@ -543,14 +547,19 @@ class Cross(Case):
     env = {"noconj": True}
     timeout_s = 600
 
-    def __init__(self, kind, N, K, dims=(2,), coupling="sparse", record_all=True, som=False, layout="C"):
+    def __init__(self, kind, N, K, dims=(2,), coupling="sparse", record_all=True, som=False, layout="C", subdiv="default"):
         self.kind, self.N, self.K, self.dims, self.coupling, self.record_all = kind, N, K, tuple(dims), coupling, record_all
         # layout "F": the initial states are handed over as column-major (Fortran-ordered) arrays -- the same
         # logical matrices, e.g. what .T / .conj().T views or np.asfortranarray produce
         self.layout = layout
+        # subdiv "default": both routes with their documented defaults; "none": subdiv_limit=None on both
+        # routes (TempoParameters(subdiv_limit=None) / compute_dynamics_with_field(subdiv_limit=None)), the
+        # documented "sample the Liouvillian twice per step" mode
+        self.subdiv = subdiv
         self.som = som       # normal form by z3's sum-of-monomials rewriter first (vf/poly.py), for the larger identities
         tag = "%s_N%d_K%s_d%s_%s%s%s" % (kind, N, K, "x".join(map(str, dims)), coupling, "" if record_all else "_last",
                                        "" if layout == "C" else "_layoutF")
+        tag += "" if subdiv == "default" else "_subdivNone"
         self.id = ("H1/cdwf_field_time/cross_" if kind not in AUTONOMOUS else "H1/cross_auto/") + tag
         if kind not in AUTONOMOUS:
             self.first_timeout_s = 2
@@ -570,16 +579,34 @@ class Cross(Case):
         infl = [lib.Influences(inp, d, K, name="I%d" % s) for s, d in enumerate(dims)]
         mfs = oqupy.MeanFieldSystem(systems, eom)
         # method 1: MeanFieldTempo (real compute)
-        mt = make_mean_field_tempo(mfs, systems, rho0s, a0, start, dt, K, infl, lib.EPS_REAL)
+        from oqupy.config import SUBDIV_LIMIT, INTEGRATE_EPSREL
+        pkw = {} if self.subdiv == "default" else {"subdiv_limit": None}
+        tpar = tempo_mod.TempoParameters(dt=dt, epsrel=lib.EPS_REAL, dkmax=K, **pkw)
+        mt = make_mean_field_tempo(mfs, systems, rho0s, a0, start, dt, K, infl, lib.EPS_REAL, parameters=tpar)
         d1 = mt.compute(start + N * dt, progress_type="silent")
         # method 2: process tensors from the same influences + compute_dynamics_with_field
         pts = [lib.run_pt_tempo(inp, infl[s], N, K, d, dt=dt) for s, d in enumerate(dims)]
         d2 = sd.compute_dynamics_with_field(mfs, initial_field=a0, process_tensor_list=pts, initial_state_list=rho0s,
-                                            start_time=start, record_all=self.record_all, progress_type="silent")
+                                            start_time=start, record_all=self.record_all, progress_type="silent", **pkw)
         f1, f2 = list(d1._fields), list(d2._fields)
         s1 = [lib.dynamics_states(x) for x in d1.system_dynamics]
         s2 = [lib.dynamics_states(x) for x in d2.system_dynamics]
         obs = [Ob.holds("MeanFieldTempo lengths", len(f1) == N + 1 and len(d1._times) == N + 1)]
+        # both routes build the system propagators from the same (dt, start_time, subdiv_limit, epsrel)
+        want_sub = SUBDIV_LIMIT if self.subdiv == "default" else None
+        for s, system in enumerate(systems):
+            c = system.gp_full
+            obs.append(Ob.holds("system %d: get_propagators called once per method" % s, len(c) == 2))
+            if len(c) == 2:
+                obs.append(Ob.eq("system %d: both methods give get_propagators the same dt and start_time" % s,
+                                 [c[0][0], c[0][1]], [c[1][0], c[1][1]]))
+                obs.append(Ob.eq("system %d: dt and start_time given to get_propagators" % s, [c[1][0], c[1][1]], [dt, start]))
+                obs.append(Ob.holds("system %d: both methods give get_propagators the same subdiv_limit and epsrel" % s,
+                                    c[0][2] == c[1][2] and c[0][3] == c[1][3]))
+                obs.append(Ob.holds("system %d: MeanFieldTempo forwards subdiv_limit=%s and the Liouvillian epsrel" % (s, want_sub),
+                                    c[0][2] == want_sub and c[0][3] == INTEGRATE_EPSREL))
+                obs.append(Ob.holds("system %d: compute_dynamics_with_field forwards subdiv_limit=%s and the Liouvillian epsrel"
+                                    % (s, want_sub), c[1][2] == want_sub and c[1][3] == INTEGRATE_EPSREL))
         if self.record_all:
             obs.append(Ob.holds("lengths", len(f2) == N + 1))
             obs.append(Ob.holds("times", [float(t) for t in d1._times] == [float(t) for t in d2._times]
@@ -876,6 +903,7 @@ def cases(tier):
         Mft("poly", 2, 1, coupling="sparse"),
         # cross-method
         Cross("polyauto", 2, 1), Cross("poly", 2, 1), Cross("polyauto", 2, 1, layout="F"),
+        Cross("polyauto", 2, 1, subdiv="none"),
         Mft("poly", 2, 1, coupling="sparse", layout="F"),
         H2(None), H2(4), H2D(None, 1), H2D(4, 2),
     ]
@@ -891,7 +919,7 @@ def cases(tier):
             Mft("uf", 3, None, coupling="sparse"), Mft("linear", 3, 1), Mft("poly", 3, 2, coupling="sparse"),
             Cross("polyauto", 3, 1, coupling="none"), Cross("polyauto", 3, 2, coupling="none"), Cross("polyauto", 2, 1, dims=(2, 2)),
             Cross("polyauto", 2, 1, record_all=False), Cross("poly", 3, 2, coupling="none"), Cross("polyauto", 3, None, coupling="none"),
-            Cross("polyauto", 2, 2), Cross("polyauto", 2, None), Cross("polyauto", 2, 2, dims=(2, 2), layout="F"),
+            Cross("polyauto", 2, 2), Cross("polyauto", 2, None), Cross("polyauto", 2, 2, dims=(2, 2), layout="F"), Cross("poly", 2, 2, dims=(2, 2), subdiv="none"),
             Mft("uf", 3, 2, coupling="sparse", layout="F"),
             H2(None, d=3), H2D(None, 2), H2D(4, 1),
         ]
